@@ -44,9 +44,6 @@ func runC08(e *Env) {
 	ruleC08NewSize(e)
 	ruleC08Text(e)
 	ruleC08Max(e, e.P, "")
-	if e.P386 != nil {
-		ruleC08Max(e, e.P386, " (GOARCH=386)")
-	}
 	e.S.Floor("C08.ovf", 8)
 	e.S.Floor("C08.text", 6)
 	e.S.Floor("C08.max", 36)
